@@ -1,8 +1,193 @@
+/-
+C19 — stored results come back exactly, and queries mean what they say. Property theorems.
+Helper lemmas: Proofs/Lemmas/C19Order.lean (byte order), C19Merge.lean (part.merge),
+C19Split.lean (SplitWords / quoting), C19Rel.lean (relational evaluation).
+-/
 import Model.Storage.Query
 import Model.Storage.Fmt
 import Model.Analysis.Quote
-import Model.Spec.Storage
+import Proofs.Lemmas.C19Order
+import Proofs.Lemmas.C19Merge
+import Proofs.Lemmas.C19Split
+import Proofs.Lemmas.C19Rel
 
 namespace C19
-theorem placeholder : True := trivial
+open Storage.Query Analysis.Quote
+
+/-! ### merging the terms on one key -/
+
+/-- **merge_is_conjunction, for an arbitrary linear order** with least element `e` (the empty
+string): merging the parts on one key from left to right yields a part that a value `v ≠ e`
+satisfies iff it satisfies every part; io.EOF (`none`) exactly when no such value exists. -/
+theorem merge_is_conjunction_generic {V : Type} [LinearOrder V] (lt : V → V → Bool) (e : V)
+    (hlt : ∀ a b, lt a b = true ↔ a < b) (he : ∀ v, e ≤ v)
+    (p : PartG V) (ps : List (PartG V)) (v : V) (hv : v ≠ e) :
+    satOpt lt (mergeAll lt e p ps) v ↔ ∀ q ∈ p :: ps, satG lt q v :=
+  mergeAll_sat lt e hlt he ps p v hv
+
+/-- **merge_is_conjunction** at the bytewise order of Go strings / SQLite BINARY collation.
+`_partial`: holds for every label value except the empty string; for `v = ""` the code's treatment
+of an empty lower bound (`key>` selects any value, `ltgt` with `value2 == ""` becomes `lt`) departs
+from the comparison semantics — see `merge_empty_value_counterexample` and finding N8. -/
+theorem merge_is_conjunction_partial (p : Part) (ps : List Part) (v : Bytes) (hv : v ≠ []) :
+    satOpt blt (@mergeAll Bytes bytesOrder blt [] p ps) v ↔ ∀ q ∈ p :: ps, satG blt q v :=
+  @mergeAll_sat Bytes bytesOrder blt [] (fun _ _ => Iff.rfl) (fun v => blt_nil_right v) ps p v hv
+
+example : satG blt (⟨[107], .gt, [97], []⟩ : Part) [98] ∧ ([98] : Bytes) ≠ [] := by
+  simp [satG, blt]
+
+/-- the full-strength statement fails at the empty value: `k>"" k<"b"` merges to `k<"b"`, which the
+empty string satisfies although `"" > ""` is false. -/
+theorem merge_empty_value_counterexample :
+    ∃ (p q : Part) (v : Bytes),
+      satOpt blt (merge p q) v ∧ ¬ (satG blt p v ∧ satG blt q v) :=
+  ⟨⟨[107], .gt, [], []⟩, ⟨[107], .lt, [98], []⟩, [], by
+    simp [merge, mergeG, finishLtgt, satOpt, satG, blt, Op.toNat]⟩
+
+/-- merging never changes the key -/
+theorem merge_keeps_key (p q m : Part) (h : merge p q = some m) (hk : p.key = q.key) :
+    m.key = p.key := by
+  rcases merge_key blt [] p q m h with h | h
+  · exact h
+  · rw [h, hk]
+
+/-! ### SplitWords and the front end's quoting -/
+
+/-- **splitwords_quote**: a non-empty word quoted by `addToQuery`'s rule is split back into exactly
+that word. -/
+theorem splitwords_quote (s : Bytes) (hs : s ≠ []) : splitWords (quote s) = [s] :=
+  splitWords_quote_end s hs
+
+/-- the whole of `addToQuery`: the added word comes back first, then the words of the old query
+(after a `|` word when the old query had none). -/
+theorem splitwords_addToQuery (q add : Bytes) (ha : add ≠ []) :
+    splitWords (addToQuery q add) =
+      add :: (if q.any (· == cBar) then splitWords q else [cBar] :: splitWords q) := by
+  unfold addToQuery
+  split
+  · rw [List.append_assoc, List.singleton_append, splitWords_quote_cons _ _ ha]
+  · rw [List.append_assoc]
+    show splitWords (quote add ++ cSpace :: ([cBar, cSpace] ++ q)) = _
+    rw [splitWords_quote_cons _ _ ha]
+    congr 1
+    have := splitWords_quote_cons [cBar] q (by simp)
+    simpa [quote, needsQuote, cBar, cSpace, cTab, cBackslash, cQuote] using this
+
+/-- the words of `ws` quoted and joined by blanks -/
+def joinQuoted : List Bytes → Bytes
+  | [] => []
+  | [w] => quote w
+  | w :: ws => quote w ++ cSpace :: joinQuoted ws
+
+/-- **splitwords_spec**: (i) no word is empty; (ii) every list of non-empty words is recovered from
+its quoted, blank-separated rendering (any byte string can be a word). -/
+theorem splitwords_spec :
+    (∀ q, ∀ w ∈ splitWords q, w ≠ []) ∧
+    (∀ ws : List Bytes, (∀ w ∈ ws, w ≠ []) → splitWords (joinQuoted ws) = ws) := by
+  refine ⟨splitWords_nonempty, ?_⟩
+  intro ws
+  induction ws with
+  | nil => intro _; rfl
+  | cons w ws ih =>
+    intro h
+    cases ws with
+    | nil => exact splitWords_quote_end w (h w (by simp))
+    | cons w2 ws' =>
+      show splitWords (quote w ++ cSpace :: joinQuoted (w2 :: ws')) = _
+      rw [splitWords_quote_cons _ _ (h w (by simp)), ih (fun x hx => h x (by simp [hx]))]
+
+/-! ### the query as a whole -/
+
+theorem forall2_iff {α β : Type} {R : α → β → Prop} {A : β → Prop} {B : α → Prop}
+    {as : List α} {bs : List β} (h : List.Forall₂ R as bs) (hab : ∀ a b, R a b → (A b ↔ B a)) :
+    (∀ b ∈ bs, A b) ↔ ∀ a ∈ as, B a := by
+  induction h with
+  | nil => simp
+  | cons hr _ ih => simp only [List.mem_cons, forall_eq_or_imp, ih, hab _ _ hr]
+
+/-- **query_result_spec** (relational model of the SQL): on a database state whose keys hold (`WF`)
+and that stores no empty label value, a query that is accepted returns exactly the stored records
+whose labels satisfy every word of the query — `key:value`, `key<value`, `key>value` compared
+bytewise, several words on one key meaning their conjunction — each record once. -/
+theorem query_result_spec (db : DB) (hwf : WF db) (hne : NoEmptyValues db) (q : Bytes)
+    (recs : List RecordRow) (h : queryRecords db q = .ok recs) :
+    recs.Nodup ∧ ∀ r, r ∈ recs ↔
+      (r ∈ db.records ∧
+        ∀ w ∈ splitWords q, ∃ p, parseWord w = .ok p ∧ termSat (labelRel db r.rkey) p) := by
+  unfold queryRecords parseQuery mergedParts at h
+  cases hc : collect [] (splitWords q) with
+  | error e => simp only [hc, bind, Except.bind] at h; cases h
+  | ok tbl =>
+    simp only [hc, bind, Except.bind, pure, Except.pure] at h
+    cases hs : sqlAll (sortByKey tbl) with
+    | error e => simp only [hs] at h; cases h
+    | ok sqls =>
+      simp only [hs, Except.ok.injEq] at h
+      subst h
+      have hsel := selectRecords_spec db hwf sqls
+      refine ⟨hsel.1, fun r => ?_⟩
+      rw [hsel.2]
+      constructor
+      · rintro ⟨hr, hall⟩
+        refine ⟨hr, ?_⟩
+        have hrk : r.rkey ∈ db.records.map RecordRow.rkey := List.mem_map.mpr ⟨r, hr, rfl⟩
+        have hL := labelRel_ok db hwf hne r.rkey
+        have h1 := (forall2_iff (sqlAll_forall _ _ hs)
+          (fun p s hps => sql_sat db hwf hne p s hps r.rkey hrk)).mp hall
+        have h2 : tblSat (labelRel db r.rkey) tbl := fun t ht => h1 t ((mem_sortByKey t tbl).mpr ht)
+        exact ((collect_ok hL _ [] tbl hc).mp h2).2
+      · rintro ⟨hr, hall⟩
+        refine ⟨hr, ?_⟩
+        have hrk : r.rkey ∈ db.records.map RecordRow.rkey := List.mem_map.mpr ⟨r, hr, rfl⟩
+        have hL := labelRel_ok db hwf hne r.rkey
+        have h2 : tblSat (labelRel db r.rkey) tbl :=
+          (collect_ok hL _ [] tbl hc).mpr ⟨fun t ht => absurd ht (by simp), hall⟩
+        exact (forall2_iff (sqlAll_forall _ _ hs)
+          (fun p s hps => sql_sat db hwf hne p s hps r.rkey hrk)).mpr
+          (fun t ht => h2 t ((mem_sortByKey t tbl).mp ht))
+
+/-- a query reported as never matching (io.EOF, shown as an empty result) is indeed satisfied by no
+stored record -/
+theorem query_unsat_spec (db : DB) (hwf : WF db) (hne : NoEmptyValues db) (q : Bytes)
+    (h : queryRecords db q = .error .eof) (r : RecordRow) (_hr : r ∈ db.records) :
+    ¬ ∀ w ∈ splitWords q, ∀ p, parseWord w = .ok p → termSat (labelRel db r.rkey) p := by
+  have hL := labelRel_ok db hwf hne r.rkey
+  unfold queryRecords parseQuery mergedParts at h
+  cases hc : collect [] (splitWords q) with
+  | error e =>
+    simp only [hc, bind, Except.bind] at h
+    have : e = .eof := by cases h; rfl
+    subst this
+    intro hall
+    exact collect_eof hL _ [] hc ⟨fun t ht => absurd ht (by simp), hall⟩
+  | ok tbl =>
+    exfalso
+    simp only [hc, bind, Except.bind, pure, Except.pure] at h
+    -- `sql()` never reports EOF
+    suffices hh : ∀ ps, sqlAll ps ≠ .error .eof by
+      cases hs : sqlAll (sortByKey tbl) with
+      | error e => simp only [hs] at h; exact hh _ (by rw [hs]; cases h; rfl)
+      | ok sqls => simp only [hs] at h; cases h
+    intro ps
+    induction ps with
+    | nil => simp [sqlAll]
+    | cons p ps ih =>
+      unfold sqlAll
+      cases hp : p.sql with
+      | error e =>
+        simp only [bind, Except.bind]
+        intro he; cases he
+        unfold Part.sql at hp
+        split at hp
+        · split at hp <;> cases hp
+        · split at hp
+          · split at hp <;> cases hp
+          · cases hp
+          · split at hp <;> cases hp
+          · cases hp
+      | ok s =>
+        cases hr : sqlAll ps with
+        | error e => simp only [bind, Except.bind]; intro he; cases he; exact ih hr
+        | ok r => simp [bind, Except.bind, pure, Except.pure]
+
 end C19
